@@ -242,7 +242,7 @@ func runC18(c *Ctx) {
 					sites = append(sites, c.at(in))
 					target := cl.Fn.(*ssa.Function)
 					for i, b := range cl.Bindings {
-						if c.ownedBinding(b, f, top) {
+						if c.ownedBinding(b, f, top) && !freshPerUse(in, b) {
 							bad = append(bad, "closure at "+c.at(in)+" captures "+target.FreeVars[i].Name()+" ("+types.TypeString(b.Type(), func(p *types.Package) string { return p.Name() })+")")
 						}
 					}
@@ -291,6 +291,11 @@ func runC18(c *Ctx) {
 					sites = append(sites, c.at(in)+" captures "+target.FreeVars[i].Name())
 					// writes by the spawner reachable after the go statement
 					ir.WalkAfter(in, nil, func(x ssa.Instruction) bool {
+						// the variable is re-made: a later iteration's container
+						// is not the one the goroutine got
+						if al, isAl := b.(*ssa.Alloc); isAl && x == ssa.Instruction(al) {
+							return false
+						}
 						if w := containerWrite(x, b); w != "" {
 							if len(c.commonLock(f, x, target, used[0])) == 0 {
 								bad = append(bad, fmt.Sprintf("%s: goroutine started at %s uses %s (%s) while the spawning function %s it at %s", c.nm(f), c.at(in), target.FreeVars[i].Name(), c.at(used[0]), w, c.at(x)))
@@ -491,4 +496,33 @@ func (c *Ctx) rootPairing() {
 		entry[c.nm(fn)] = e
 	}
 	c.pairing(c.P.Funcs, entry, 40)
+}
+
+// freshPerUse: the captured variable is a map/slice variable of the spawning
+// function that is made anew each time control reaches its declaration (an
+// Alloc), and no write to it is reachable from the closure's creation without
+// passing that declaration again: each closure gets a container of its own
+// that the spawner is done with (a per-iteration copy handed to a goroutine).
+func freshPerUse(at ssa.Instruction, b ssa.Value) bool {
+	al, ok := b.(*ssa.Alloc)
+	if !ok || al.Parent() != at.Parent() {
+		return false
+	}
+	switch al.Type().Underlying().(*types.Pointer).Elem().Underlying().(type) {
+	case *types.Map, *types.Slice:
+	default:
+		return false
+	}
+	written := false
+	ir.WalkAfter(at, nil, func(x ssa.Instruction) bool {
+		if x == ssa.Instruction(al) {
+			return false
+		}
+		if containerWrite(x, b) != "" {
+			written = true
+		}
+		return true
+	})
+	// and the declaration does lie on the way back to the creation point
+	return !written && ir.LoopHeaderOf(al.Block()) != nil
 }
